@@ -182,6 +182,20 @@ func runCase(ex Executor, d *Drv, ops []Op, st *Stats, canon func(string) string
 			if cl != nil {
 				isS = cl(op, io, mo)
 			}
+			if !isS && cl != nil {
+				// model and implementation have parted ways on a fidelity matter; the property-level
+				// assertion on the implementation's own outcomes still applies to the rest of the case
+				for j := i + 1; j < len(ops); j++ {
+					r2 := ex.Exec(ops[j].Line)
+					if k := strings.LastIndex(r2, " @now="); k >= 0 {
+						r2 = r2[:k]
+					}
+					o2 := canon(r2)
+					if cl(ops[j], o2, "") {
+						return &Divergence{j, ops[j], o2, "(model left behind at op " + fmt.Sprint(i) + ": " + clip(mo) + ")", true, ops[j].Line}
+					}
+				}
+			}
 			return &Divergence{i, op, io, mo, isS, mline}
 		}
 	}
